@@ -13,6 +13,7 @@ import (
 	"crypto/x509"
 	"errors"
 	"fmt"
+	"io"
 	"net"
 	"net/http"
 	"os"
@@ -54,6 +55,7 @@ func (hp *HTTPProxy) errorResponse(req *http.Request, err error) *http.Response 
 		handleTLSECHRejectionError,
 		handleTLSAlertError,
 		handleTLSHandshakeError,
+		handleEOF,
 		handleMartianErrorStatus,
 		handleAuthenticationError,
 		handleDenyError,
@@ -228,6 +230,18 @@ func handleTLSHandshakeError(req *http.Request, err error) (code int, msg, label
 			msg = fmt.Sprintf("tls handshake failed for host %q", req.Host)
 			label = "tls_handshake"
 		}
+	}
+
+	return
+}
+
+// handleEOF covers a remote host that closes the connection where an answer - the rest of a
+// TLS handshake, a response head - was due: the error is a bare EOF.
+func handleEOF(req *http.Request, err error) (code int, msg, label string) {
+	if errors.Is(err, io.EOF) || errors.Is(err, io.ErrUnexpectedEOF) {
+		code = http.StatusBadGateway
+		msg = fmt.Sprintf("remote host %q closed the connection", req.Host)
+		label = "net_eof"
 	}
 
 	return
